@@ -10,8 +10,8 @@ Model of the access-log emission path of `vgirpc`:
 
 A record is abstracted to the fields this code reads or writes: `status`, `stream_id`,
 `request_id` (each absent / a string / a non-string value), `sample_rate` (the float64 bit
-pattern stamped by the sampler) and `dropped_records`. `id` is a label carried in a field the
-code never looks at.
+pattern stamped by the sampler) and `dropped_records`; all other keys are `extra`. `id` is a
+label carried in a field the code never looks at.
 
 The sample rate is a float64 given by its IEEE-754 bit pattern; the range checks
 (`math.IsNaN(rate) || rate < 0.0 || rate > 1.0`, `rate >= 1.0`) are done on the bits. The
@@ -36,6 +36,8 @@ structure Rec where
   requestId : Field
   sampleRate : Option Nat    -- `sample_rate` (float64 bits), stamped by `keep`
   dropped : Nat              -- `dropped_records`; 0 = absent
+  extra : List (Bytes × Field) := []   -- every other key of the record (trace_id, span_id, method, …):
+                                       -- carried along, never read by the sampler or the emitter
   deriving Repr, DecidableEq
 
 def errorBytes : Bytes := [101, 114, 114, 111, 114]   -- "error"
